@@ -372,7 +372,67 @@ func runC02(p *load.Program, r *core.Report) {
 	c02InitKick(a, r)
 	c02PushTruthful(a, r)
 	c02AlivePredicate(a, r)
+	c02AliveGuard(a, r, pushes)
 	c02MessageFields(a, r, pushes)
+}
+
+// c02AliveGuard: D10 — the functions that deliver a regular message, a request, an inspect request
+// or a forwarded message into a process mailbox decide "is the target still there" with the alive
+// predicate (D8) and nothing weaker: the push is dominated by the true edge of target.isAlive().
+// (Exit and event deliveries go through their own helpers and are listed as exempt: an exit for a
+// dying process is harmless, events are fanned out from the relation table.)
+func c02AliveGuard(a *Anchors, r *core.Report, pushes []mailboxPush) {
+	aliveGuard(a, r, "C02.D10 liveness-by-the-alive-predicate", "C02.D10", 9, pushes, nil)
+}
+
+// aliveGuard: see c02AliveGuard; only restricts the functions considered (nil: all).
+func aliveGuard(a *Anchors, r *core.Report, rule, rid string, floor int, pushes []mailboxPush, only func(*ssa.Function) bool) {
+	r.Floor(rule, floor)
+	exempt := map[string]string{
+		"sendExitMessage":   "exit signal: the target is terminating or will; no liveness test by design",
+		"sendEventMessage":  "event fan-out from the relation table",
+		"RouteSendExit":     "exit signal",
+		"unregisterProcess": "exit to the process's own meta processes",
+		"spawn":             "exit to the meta processes of a process that failed to start",
+		"Log":               "log record for a logger process: the logger is removed from the node's logger table when its process is released",
+	}
+	seq := map[string]int{}
+	for _, mp := range pushes {
+		if mp.Kind == "meta" {
+			continue
+		}
+		f := mp.Fn
+		if _, ex := exempt[root(f).Name()]; ex {
+			continue
+		}
+		if only != nil && !only(f) {
+			continue
+		}
+		// only pushes whose target process was looked up or handed in (not the process's own mailbox)
+		fn := fname(f)
+		seq[fn]++
+		key := fmt.Sprintf("%s|%s|push#%d", rid, fn, seq[fn])
+		inst := "the push into another process's mailbox happens only after that process's alive predicate said yes"
+		ok := false
+		eachInstr(f, func(in ssa.Instruction) {
+			c, isCall := in.(*ssa.Call)
+			if !isCall || !callsNamed(in, "isAlive") || len(c.Common().Args) == 0 {
+				return
+			}
+			if canon(c.Common().Args[0]) != canon(mp.Base) {
+				return
+			}
+			t, _, _ := boolEdges(c)
+			if len(t) > 0 && edgesDominate(t, mp.In) {
+				ok = true
+			}
+		})
+		if ok {
+			r.OK(rule, key, fn, a.P.Pos(mp.In.Pos()), inst, "dominated by the true edge of isAlive() on the same process")
+		} else {
+			r.Bad(rule, key, fn, a.P.Pos(mp.In.Pos()), inst, "the push is not behind isAlive() of the target: a process that was killed while busy (Zombee) or is terminating accepts the message, the sender is told 'delivered', and nobody ever handles it")
+		}
+	}
 }
 
 // c02AlivePredicate: D8 — the predicate that decides whether a process accepts messages counts
